@@ -1,6 +1,7 @@
 (* C06 -- property theorems only; each closed by `exact` and followed by Print Assumptions.
    (Proofs.LabelAlignExamples holds computed non-trivial instances of the hypotheses/conclusions.) *)
-Require Import SF.Prelude SF.SetAlg SF.LabelAlign Proofs.SetAlgFacts Proofs.LabelAlignFacts Proofs.LabelAlignExamples.
+Require Import SF.Prelude SF.Dtype SF.SetAlg SF.LabelAlign SF.FrameAlign Proofs.SetAlgFacts Proofs.LabelAlignFacts Proofs.LabelAlignExamples
+  Proofs.FrameAlignFacts Proofs.FrameReindexFacts Proofs.FrameAlignExamples Proofs.SourceConstantsC06.
 
 (* Union / intersection / difference as Index._ufunc_set computes them -- through EVERY path of the
    decision procedure (Index.equals shortcut, empty shortcuts, the assume_unique same-length
@@ -114,3 +115,53 @@ Theorem C06_binop_permutation_invariant :
   (forall l, get A R eqb idx rs l = get A R eqb idx' rs' l).
 Proof. exact M_series_binop_perm_invariant. Qed.
 Print Assumptions C06_binop_permutation_invariant.
+
+(* TypeBlocks.resize_blocks (Frame.reindex, hence the alignment of every Frame operator) does not depend on
+   the block layout: for EVERY partition of the columns into 1-D / 2-D blocks, any cell type, fill value
+   and coercion, the re-indexed blocks flatten to a function of the flattened columns alone -- on
+   [resize_dom], i.e. everywhere except the both-axes branch with exactly one axis without a common
+   label (Refuted/C06.v: there the layout decides between IndexError, ValueError and a positional copy). *)
+Theorem C06_resize_blocks_layout_independent :
+  forall (V : Type) (fill : V) (castf : dtype -> V -> V) (fdt : dtype -> dtype) (fill_dtype : dtype)
+         (t : list (blk V)) nrows ic cc,
+  Forall (wf_blk V) t ->
+  match cc with
+  | Some c => wf_ic c /\ Forall (fun s => (s < length (flatten V t))%nat) (ic_src c)
+  | None => True
+  end ->
+  resize_dom ic cc = true ->
+  exists t', M_resize_blocks V fill castf fdt fill_dtype t nrows ic cc = Ok t' /\
+             flatten V t' = S_resize_cols V fill castf fdt fill_dtype (flatten V t) nrows ic cc.
+Proof. exact resize_blocks_layout_independent. Qed.
+Print Assumptions C06_resize_blocks_layout_independent.
+
+(* Frame.reindex -- the alignment step of every Frame operator -- composed end to end: labels ->
+   IndexCorrespondence on each axis (common labels by intersect1d in any order, through every shortcut) ->
+   resize_blocks over ANY block layout.  The flattened result is the (row label, column label) lookup of
+   the specification: kept columns hold, per destination row label, the source's cell or the fill value;
+   absent columns are fill columns.  Guard [frame_dom]: when both axes are re-indexed, either both keep a
+   label or neither does (outside it: finding C06-resize-both-axes-one-sided-no-common, Refuted/C06.v). *)
+Theorem C06_frame_reindex_every_layout_is_label_lookup :
+  forall (A V : Type) (eqb leb : A -> A -> bool) (sortable : list A -> bool),
+  (forall x y, eqb x y = true <-> x = y) ->
+  forall (fill : V) (castf : dtype -> V -> V) (fdt : dtype -> dtype) (fill_dtype : dtype)
+         objpath_i objpath_c index columns (t : list (blk V)) new_index new_columns,
+  Forall (wf_blk V) t -> NoDup index -> NoDup columns ->
+  (forall d, new_index = Some d -> NoDup d) -> (forall d, new_columns = Some d -> NoDup d) ->
+  length (flatten V t) = length columns ->
+  Forall (fun c : col V => length (snd c) = length index) (flatten V t) ->
+  frame_dom A eqb index columns new_index new_columns = true ->
+  exists t', M_frame_reindex_g A V eqb leb sortable fill castf fdt fill_dtype objpath_i objpath_c
+               index columns t new_index new_columns = Ok t' /\
+             flatten V t' = S_frame_reindex A V eqb fill castf fdt fill_dtype index columns (flatten V t)
+                              new_index new_columns.
+Proof. exact frame_reindex_label_spec. Qed.
+Print Assumptions C06_frame_reindex_every_layout_is_label_lookup.
+
+(* The keyword constants of the source (REGENERATED into Gen/Gen_c06.v on every run: check_equals=False and
+   union in Series._ufunc_binary_operator, union x4 in Frame._ufunc_binary_operator, fill_value=np.nan,
+   assume_unique per operand kind in Index._ufunc_set, assume_unique=True in from_correspondence) are the
+   ones the models above are written with. *)
+Theorem C06_models_use_source_constants : source_constants_as_modelled.
+Proof. exact source_constants_ok. Qed.
+Print Assumptions C06_models_use_source_constants.
